@@ -8,5 +8,6 @@ CONF = {
         "a -start/-end range is lexical: the pair may cross block and subroutine boundaries and covers every statement between the two comments; for such pairs unused/* diagnostics and diagnostics located on a `sub` line (raised by passes that do not run while the range is open) are left out of the comparison",
         "stacked falco-ignore-next-line comments in front of one statement cover the union of their rule lists; rule-listed -start comments accumulate until `falco-ignore-end <rules>` re-enables those rules or a bare -end re-enables all (docs/linter.md, Range ignoring, last example)",
         "falco-ignore-next-line on an if statement covers the whole compound statement",
+        "the linter option ignore_subroutines is only drawn together with a -start/-end pair that stands in front of two subroutine declarations: a directive inside a subroutine whose body the configuration excludes from linting is never read, and nothing documents that it should be",
     ],
 }
